@@ -5,6 +5,6 @@ def comp : Component Unit where
   init := ()
   step _ _ := ((), [], [])
   stepO := some RealAdapter.stepO
-  prop := RealAdapter.sameProp ["after-other-runs", "later-run-logs", "sample-endpoint", "concurrent", "concurrent-logs"]
+  prop := RealAdapter.sameProp ["after-other-runs", "later-run-logs", "sample-endpoint", "shared-config", "concurrent", "concurrent-logs"]
 
 def main (args : List String) : IO Unit := Driver.main comp args
